@@ -8,11 +8,10 @@ object and re-opens the tree from disk."""
 
 import os
 import shutil
-import stat
 
 from hypothesis import strategies as st
 
-from vf.api import Kind, check, ok, rejected, trivial
+from vf.api import Kind, check, ok, trivial
 from vf.lib import bz
 from vf.lib.c09_model import (Model, ModelError, base, depth, inside, join,
                               parent)
@@ -39,7 +38,23 @@ ASSUMPTIONS = [
     "dirstate's same-second window never decides a result",
     "inputs excluded by construction: a path with versioned children that "
     "is a non-directory on disk (trusted-base assertion), git index paths "
-    "nested below other index paths, paths that traverse symlinks",
+    "nested below other index paths, paths that traverse symlinks, git "
+    "trees with self-looping symlinks (dulwich's ignore manager dies with "
+    "ELOOP), bzr operations whose outcome depends on the kind the dirstate "
+    "remembers for an entry whose kind changed on disk since it was recorded",
+    "revert: after a full revert the harness deletes every unversioned "
+    "path (backups / .moved files are not part of the property); a full "
+    "revert that would have to destroy unversioned directory content is not "
+    "generated; revert of one path is generated only for a newly added leaf, "
+    "a non-directory at the same path in both trees, or a removed "
+    "non-directory with unchanged parent and free path (and for git only "
+    "when similarity rename detection cannot pair the path with another)",
+    "git: status is compared in split form (remove + add; rename and copy "
+    "detection is similarity based), unknowns are compared for regular files "
+    "only; bzr: unknowns below an entry whose recorded kind is unknown are "
+    "not compared",
+    "steps that meet the precondition of an already listed defect are kept "
+    "at 1/6 of their natural frequency so that sequences get past them",
 ]
 NONTRIVIAL_FLOOR = {"quick": 60, "thorough": 1000}
 
